@@ -31,7 +31,7 @@ RULE = ("random section lists of 2..8 sections over the kinds each style support
         "parameters, other parameters, raises, warns, returns, yields, receives, examples, attributes, functions/methods, classes, "
         "modules, admonitions; Sphinx: text, parameters, attributes, returns, raises with fields interleaved in any order), 1..4 "
         "items per section with/without types, descriptions of 1..4 lines with blank lines and relative indentation, optional "
-        "titles, every documented identifier alias in 5 letter-cases, indentation unit 2 or 4, 1..2 blank lines between sections, "
+        "titles, every documented identifier alias in 5 letter-cases, indentation unit 2, 3, 4 or 8, 1..2 blank lines between sections, "
         "body optionally indented as in source; parents (function / __init__ / class / module / property / none) generated with the "
         "structure; all parser options drawn at random (2^8 Google, 2^3 Numpy, 2 Sphinx); 8% of the structures carry exactly one "
         "documented-but-suspicious construct (type field after its param, '):' inside a description, untyped attribute after a "
@@ -76,8 +76,8 @@ TYPES = ["int", "str", "bool", "float", "list[int]", "dict[str, int]", "Optional
 SIMPLE_TYPES = ["int", "str", "bool", "float", "bytes", "Integer", "a.b.C", "list[int]"]
 NOSPACE_TYPES = [t for t in TYPES if " " not in t]
 DEFAULTS = ["0", "1", "None", "'s'", "True", "1.5", "()"]
-PARAM_NAMES = ["a", "b", "c", "d", "e", "x", "y", "z", "flag", "value", "mode", "data", "n_items", "_private", "cls2", "key"]
-ATTR_NAMES = ["foo", "bar", "baz", "count", "name_", "_hidden", "items2", "total"]
+PARAM_NAMES = ["a", "b", "c", "d", "e", "x", "y", "z", "flag", "value", "mode", "data", "n_items", "_private", "cls2", "key", "camelCase"]
+ATTR_NAMES = ["foo", "bar", "baz", "count", "name_", "_hidden", "items2", "total", "MAX_VALUE"]
 RETURN_NAMES = ["result", "success", "precision", "status", "left", "right", "t"]
 EXC_NAMES = ["ValueError", "KeyError", "TypeError", "RuntimeError", "a.b.CustomError", "OSError"]
 WARN_NAMES = ["UserWarning", "DeprecationWarning", "a.b.CustomWarning", "RuntimeWarning"]
@@ -283,9 +283,11 @@ def gen_struct(rng: random.Random, style: str, hostile: str | None = None) -> di
         kind = rng.choice(kinds_pool)
         if kind == "text" and (not sections or sections[-1]["kind"] == "text"):
             continue
-        sec: dict = {"kind": kind, "blank_above": rng.choice([1, 1, 1, 2]), "indent": rng.choice([4, 4, 4, 2])}
+        sec: dict = {"kind": kind, "blank_above": rng.choice([1, 1, 1, 2]), "indent": rng.choice([4, 4, 4, 4, 2, 2, 3, 8])}
         if kind == "text":
             sec["lines"] = gen_text(rng, tok)
+            if rng.random() < 0.2:
+                sec["blank_above"] = 0            # only sections need a blank line above; prose may follow a section directly
         elif kind == "admonition":
             sec["ident"] = case_variant(rng, rng.choice(GOOGLE_ADMONITIONS if style == "google" else NUMPY_ADMONITIONS))
             sec["title"] = phrase(rng, tok) + rng.choice(["", "", ":"]) if (style == "google" and rng.random() < 0.4) else None
@@ -298,7 +300,7 @@ def gen_struct(rng: random.Random, style: str, hostile: str | None = None) -> di
         else:
             idents = GOOGLE_IDENTS if style == "google" else NUMPY_IDENTS
             sec["ident"] = case_variant(rng, rng.choice(idents[kind]))
-            sec["title"] = phrase(rng, tok) if (style == "google" and rng.random() < 0.25) else None
+            sec["title"] = phrase(rng, tok) + rng.choice(["", "", ":"]) if (style == "google" and rng.random() < 0.25) else None
             nitems = rng.choice([1, 1, 2, 2, 3, 4])
             if kind in RETURNS_LIKE and style == "google":
                 prefix = "receives" if kind == "receives" else "returns"
@@ -681,7 +683,7 @@ def render_numpy(struct: dict) -> str:  # noqa: C901, PLR0912
             out.extend(sec["lines"])
             continue
         out.append(sec["ident"])
-        out.append("-" * (len(sec["ident"]) if sec["indent"] == 4 else 3))  # noqa: PLR2004
+        out.append("-" * (len(sec["ident"]) if sec["indent"] in (4, 8) else sec["indent"] + 1))
         if kind == "admonition":
             out.extend(_desc_lines(sec["body"], 0))
         elif kind == "examples":
